@@ -274,8 +274,11 @@ class Gen:
                 args = [" ".join(r.choice(["1", "7", "p", "q", "+", "-"] + objs * 2) for _ in range(r.choice([0, 1, 1, 2])))
                         for _ in range(arity[f])]
                 parts.append(f + r.choice(["", " "]) + "(" + r.choice([",", ", ", " , "]).join(args) + ")")
-            else:
+            elif c < 0.85:
                 parts.append(r.choice(objs + ["1", "p", "+", "=="]))
+            else:
+                x = r.choice(objs + funs + ["Z"])
+                parts.append(r.choice(["defined " + x, "defined(" + x + ")", "defined ( " + x + " )"]) + r.choice([" &&", " ||", ""]))
         return {"macros": ms, "input": " ".join(parts)}
 
     def malformed(self):
